@@ -1,8 +1,17 @@
 import SaModel.Lemmas.C01R2
 /-
-`build_builder` establishes `Shape` for the data types R2 covers: everything `build_builder` accepts except dictionaries
-other than `Dictionary(integer key, Utf8 | LargeUtf8)` (`build_builder` takes ANY key/value type for a dictionary —
-`Dictionary(Int8, Date32)` stores parsed dates, `Dictionary(Utf8, …)` gets string keys; R1 covers those, R2 does not).
+`build_builder` establishes `Shape` for the data types R2 covers.
+
+Two decidable predicates on the schema (both TRUE of every type `build_builder` refuses — RunEndEncoded, Interval, a
+dictionary whose key type is not an integer type —, so neither excludes anything by refusing it: `newDT_accepted`):
+
+* `coveredW` (the hypothesis of R2 / `C01_build_decode'`): everything `build_builder` accepts except
+  `Dictionary(integer key, V)` with `V` a type whose builder ACCEPTS strings without being a Utf8 / LargeUtf8 builder
+  (`dictValOpen`: Utf8View, the parsed kinds Date32 / Date64 / Time32 / Time64 / Timestamp / Duration / Decimal128, a
+  nested Dictionary).  For every OTHER `V` (Null, Boolean, integers, floats, binary types, lists, maps, structs, unions)
+  the value builder refuses `serialize_str`, every non-null push into the dictionary fails and the theorems hold there.
+* `covered` ⊆ `coveredW` (the hypothesis of the completeness theorems and of the physical layer, where `into_array` must
+  be able to append the placeholder string): dictionaries with integer keys have Utf8 / LargeUtf8 values.
 -/
 namespace SaModel.Build
 open SaModel SaModel.Spec
@@ -12,16 +21,23 @@ def isStrDT : DataType → Bool
   | .utf8 | .largeUtf8 => true
   | _ => false
 
+/-- value types of a dictionary whose builder accepts `serialize_str` but which R2 does not cover (yet): the row a
+string denotes is the parsed value (or the view string), and the link "values decoded = index entries interpreted at
+V" is not part of the state invariant -/
+def dictValOpen : DataType → Bool
+  | .utf8View | .date32 | .date64 | .time32 _ | .time64 _ | .timestamp _ _ | .duration _ | .decimal128 _ _
+  | .dictionary _ _ => true
+  | _ => false
+
 mutual
-/-- data types covered by R2 -/
+/-- data types covered by the completeness theorems and the physical layer -/
 def covered : DataType → Bool
-  | .dictionary k v => isIntDT k && isStrDT v
+  | .dictionary k v => !isIntDT k || isStrDT v
   | .list f | .largeList f => coveredF f
   | .fixedSizeList f _ => coveredF f
   | .map f _ => coveredF f
   | .struct fs => coveredFs fs
   | .union ufs _ => coveredU ufs
-  | .runEndEncoded _ _ => false
   | _ => true
 def coveredF : Field → Bool
   | .mk _ dt _ _ => covered dt
@@ -33,6 +49,100 @@ def coveredU : UFields → Bool
   | .cons _ f r => coveredF f && coveredU r
 end
 
+mutual
+/-- data types covered by R2 -/
+def coveredW : DataType → Bool
+  | .dictionary k v => !isIntDT k || (!dictValOpen v && coveredW v)
+  | .list f | .largeList f => coveredWF f
+  | .fixedSizeList f _ => coveredWF f
+  | .map f _ => coveredWF f
+  | .struct fs => coveredWFs fs
+  | .union ufs _ => coveredWU ufs
+  | _ => true
+def coveredWF : Field → Bool
+  | .mk _ dt _ _ => coveredW dt
+def coveredWFs : Fields → Bool
+  | .nil => true
+  | .cons f r => coveredWF f && coveredWFs r
+def coveredWU : UFields → Bool
+  | .nil => true
+  | .cons _ f r => coveredWF f && coveredWU r
+end
+
+mutual
+theorem coveredW_of_covered : ∀ (dt : DataType), covered dt = true → coveredW dt = true
+  | .dictionary k v, h => by
+    simp only [covered, Bool.or_eq_true, Bool.not_eq_true'] at h
+    simp only [coveredW, Bool.or_eq_true, Bool.not_eq_true', Bool.and_eq_true]
+    rcases h with h | h
+    · exact Or.inl h
+    · right; cases v <;> simp [isStrDT] at h <;> exact ⟨rfl, rfl⟩
+  | .list f, h => by simp only [covered] at h; simp only [coveredW]; exact coveredWF_of_coveredF f h
+  | .largeList f, h => by simp only [covered] at h; simp only [coveredW]; exact coveredWF_of_coveredF f h
+  | .fixedSizeList f _, h => by simp only [covered] at h; simp only [coveredW]; exact coveredWF_of_coveredF f h
+  | .map f _, h => by simp only [covered] at h; simp only [coveredW]; exact coveredWF_of_coveredF f h
+  | .struct fs, h => by simp only [covered] at h; simp only [coveredW]; exact coveredWFs_of_coveredFs fs h
+  | .union ufs _, h => by simp only [covered] at h; simp only [coveredW]; exact coveredWU_of_coveredU ufs h
+  | .null, _ | .boolean, _ | .int8, _ | .int16, _ | .int32, _ | .int64, _ | .uint8, _ | .uint16, _ | .uint32, _
+  | .uint64, _ | .float16, _ | .float32, _ | .float64, _ | .utf8, _ | .largeUtf8, _ | .utf8View, _ | .binary, _
+  | .largeBinary, _ | .binaryView, _ | .fixedSizeBinary _, _ | .date32, _ | .date64, _ | .timestamp _ _, _
+  | .time32 _, _ | .time64 _, _ | .duration _, _ | .interval _, _ | .decimal128 _ _, _ | .runEndEncoded _ _, _ => rfl
+theorem coveredWF_of_coveredF : ∀ (f : Field), coveredF f = true → coveredWF f = true
+  | .mk _ dt _ _, h => by simp only [coveredF] at h; simp only [coveredWF]; exact coveredW_of_covered dt h
+theorem coveredWFs_of_coveredFs : ∀ (fs : Fields), coveredFs fs = true → coveredWFs fs = true
+  | .nil, _ => rfl
+  | .cons f r, h => by
+    simp only [coveredFs, Bool.and_eq_true] at h
+    simp only [coveredWFs, Bool.and_eq_true]
+    exact ⟨coveredWF_of_coveredF f h.1, coveredWFs_of_coveredFs r h.2⟩
+theorem coveredWU_of_coveredU : ∀ (ufs : UFields), coveredU ufs = true → coveredWU ufs = true
+  | .nil, _ => rfl
+  | .cons _ f r, h => by
+    simp only [coveredU, Bool.and_eq_true] at h
+    simp only [coveredWU, Bool.and_eq_true]
+    exact ⟨coveredWF_of_coveredF f h.1, coveredWU_of_coveredU r h.2⟩
+end
+
+theorem all_coveredWF_of_coveredF {fields : List Field} (h : fields.all coveredF = true) : fields.all coveredWF = true := by
+  simp only [List.all_eq_true] at h ⊢
+  exact fun f hf => coveredWF_of_coveredF f (h f hf)
+
+/-- the builder of a value type outside `dictValOpen` is a Utf8 / LargeUtf8 builder or refuses strings -/
+theorem dictVal_of_shape {b : B} {v : DataType} {n : Bool} {md : Metadata} (hs : Shape b v n md)
+    (ho : dictValOpen v = false) : b.isUtf8B = true ∨ b.refusesStr = true := by
+  cases b with
+  | null _ _ => exact Or.inr rfl
+  | unknownVariant _ => exact Or.inr rfl
+  | leaf p k vl xs =>
+    simp only [Shape] at hs
+    obtain ⟨hk, _⟩ := hs
+    right
+    cases v <;> simp [kindOf] at hk <;> subst hk <;> simp [dictValOpen] at ho <;> rfl
+  | bytes p ty vl offs data =>
+    simp only [Shape] at hs
+    obtain ⟨rfl, _⟩ := hs
+    cases ty
+    · exact Or.inl rfl
+    · exact Or.inl rfl
+    · exact Or.inr rfl
+    · exact Or.inr rfl
+  | bytesView p ty vl views buf =>
+    simp only [Shape] at hs
+    obtain ⟨rfl, _⟩ := hs
+    cases ty
+    · simp [viewDT, dictValOpen] at ho
+    · exact Or.inr rfl
+  | fixedSizeBinary _ _ _ _ _ _ => exact Or.inr rfl
+  | list _ _ _ _ _ _ => exact Or.inr rfl
+  | fixedSizeList _ _ _ _ _ _ _ => exact Or.inr rfl
+  | map _ _ _ _ _ _ => exact Or.inr rfl
+  | struct _ _ _ _ _ _ _ => exact Or.inr rfl
+  | dictionary _ _ _ _ =>
+    simp only [Shape] at hs
+    obtain ⟨⟨_, _, rfl, _⟩, _⟩ := hs
+    simp [dictValOpen] at ho
+  | union _ _ _ _ _ => exact Or.inr rfl
+
 theorem isSome_newValidity (n : Bool) : (newValidity n).isSome = n := by cases n <;> rfl
 
 theorem shape_leaf {p : String} {k : LeafKind} {dt : DataType} {n : Bool} {md : Metadata} (hk : kindOf dt = some k) :
@@ -40,7 +150,7 @@ theorem shape_leaf {p : String} {k : LeafKind} {dt : DataType} {n : Bool} {md : 
   simp only [Shape]; exact ⟨hk, isSome_newValidity n⟩
 
 mutual
-theorem newDT_shape : ∀ (dt : DataType) (path : String) (n : Bool) (md : Metadata) (b : B), covered dt = true →
+theorem newDT_shapeW : ∀ (dt : DataType) (path : String) (n : Bool) (md : Metadata) (b : B), coveredW dt = true →
     newDT path dt n md = .ok b → Shape b dt n md
   | .null, path, n, md, b, _, h => by
     simp only [newDT] at h
@@ -114,7 +224,7 @@ theorem newDT_shape : ∀ (dt : DataType) (path : String) (n : Bool) (md : Metad
     obtain ⟨el, h1, h⟩ := (bind_ok _ _ _).1 h
     cases h
     simp only [newB] at h1
-    have := newDT_shape cdt _ cn cmd el (by simpa [covered, coveredF] using hc) h1
+    have := newDT_shapeW cdt _ cn cmd el (by simpa [coveredW, coveredWF] using hc) h1
     simp only [Shape]
     exact ⟨isSome_newValidity n, cname, cdt, cn, cmd, by simp, this⟩
   | .largeList (.mk cname cdt cn cmd), path, n, md, b, hc, h => by
@@ -122,7 +232,7 @@ theorem newDT_shape : ∀ (dt : DataType) (path : String) (n : Bool) (md : Metad
     obtain ⟨el, h1, h⟩ := (bind_ok _ _ _).1 h
     cases h
     simp only [newB] at h1
-    have := newDT_shape cdt _ cn cmd el (by simpa [covered, coveredF] using hc) h1
+    have := newDT_shapeW cdt _ cn cmd el (by simpa [coveredW, coveredWF] using hc) h1
     simp only [Shape]
     exact ⟨isSome_newValidity n, cname, cdt, cn, cmd, by simp, this⟩
   | .fixedSizeList (.mk cname cdt cn cmd) k, path, n, md, b, hc, h => by
@@ -133,7 +243,7 @@ theorem newDT_shape : ∀ (dt : DataType) (path : String) (n : Bool) (md : Metad
       obtain ⟨el, h1, h⟩ := (bind_ok _ _ _).1 h
       cases h
       simp only [newB] at h1
-      have := newDT_shape cdt _ cn cmd el (by simpa [covered, coveredF] using hc) h1
+      have := newDT_shapeW cdt _ cn cmd el (by simpa [coveredW, coveredWF] using hc) h1
       simp only [Shape]
       exact ⟨isSome_newValidity n, cname, cdt, cn, cmd, by rw [Int.toNat_of_nonneg (by omega)], this⟩
   | .map (.mk _ (.struct (.cons _ (.cons _ (.cons _ _)))) _ _) _, _, _, _, _, _, h => by simp [newDT, fail] at h
@@ -144,10 +254,10 @@ theorem newDT_shape : ∀ (dt : DataType) (path : String) (n : Bool) (md : Metad
     obtain ⟨vb, h2, h⟩ := (bind_ok _ _ _).1 h
     cases h
     simp only [newB] at h1 h2
-    have hc' : covered kdt = true ∧ covered vdt = true ∧ coveredFs .nil = true := by
-      simpa [covered, coveredF, coveredFs, Bool.and_assoc] using hc
-    have hk := newDT_shape kdt _ knl kmd kb hc'.1 h1
-    have hv := newDT_shape vdt _ vnl vmd vb hc'.2.1 h2
+    have hc' : coveredW kdt = true ∧ coveredW vdt = true ∧ coveredWFs .nil = true := by
+      simpa [coveredW, coveredWF, coveredWFs, Bool.and_assoc] using hc
+    have hk := newDT_shapeW kdt _ knl kmd kb hc'.1 h1
+    have hv := newDT_shapeW vdt _ vnl vmd vb hc'.2.1 h2
     simp only [Shape]
     exact ⟨isSome_newValidity n, ename, kn, kdt, knl, kmd, vn, vdt, vnl, vmd, .nil, false, emd, sorted, rfl, hk, hv⟩
   | .map (.mk _ (.struct .nil) _ _) _, _, _, _, _, _, h => by simp [newDT, fail] at h
@@ -190,7 +300,7 @@ theorem newDT_shape : ∀ (dt : DataType) (path : String) (n : Bool) (md : Metad
   | .struct fs, path, n, md, b, hc, h => by
     simp only [newDT] at h
     obtain ⟨bl, h1, h⟩ := (bind_ok _ _ _).1 h
-    have hsl := newFields_shape fs path bl (by simpa [covered] using hc) h1
+    have hsl := newFields_shapeW fs path bl (by simpa [coveredW] using hc) h1
     unfold mkStruct at h
     split at h
     · simp [fail] at h
@@ -201,26 +311,27 @@ theorem newDT_shape : ∀ (dt : DataType) (path : String) (n : Bool) (md : Metad
     simp only [newDT] at h
     split at h
     case isFalse => simp [ctx_ok, fail] at h
+    rename_i hik
     obtain ⟨kb, h1, h⟩ := (bind_ok _ _ _).1 h
     obtain ⟨vb, h2, h⟩ := (bind_ok _ _ _).1 h
     cases h
-    simp only [covered, Bool.and_eq_true] at hc
+    simp only [coveredW, hik, Bool.not_true, Bool.false_or, Bool.and_eq_true, Bool.not_eq_true'] at hc
+    have hsv := newDT_shapeW v _ false [] vb hc.2 h2
     simp only [Shape]
-    refine ⟨⟨k, v, rfl⟩, ?_, ?_, ?_⟩
-    · cases k <;> simp [isIntDT] at hc <;> (simp only [newDT] at h1; cases h1; rfl)
-    · cases k <;> simp [isIntDT] at hc <;> (simp only [newDT] at h1; cases h1; exact isSome_newValidity n)
-    · cases v <;> simp [isStrDT] at hc <;> (simp only [newDT] at h2; cases h2; rfl)
+    refine ⟨⟨k, v, rfl, hsv⟩, ?_, ?_, dictVal_of_shape hsv hc.1⟩
+    · cases k <;> simp [isIntDT] at hik <;> (simp only [newDT] at h1; cases h1; rfl)
+    · cases k <;> simp [isIntDT] at hik <;> (simp only [newDT] at h1; cases h1; exact isSome_newValidity n)
   | .union _ .sparse, _, _, _, _, _, h => by simp [newDT, ctx_ok, fail] at h
   | .union ufs .dense, path, n, md, b, hc, h => by
     simp only [newDT] at h
     obtain ⟨bl, h1, h⟩ := (bind_ok _ _ _).1 h
     cases h
-    have := newUnionFields_shape ufs path 0 bl (by simpa [covered] using hc) h1
+    have := newUnionFields_shapeW ufs path 0 bl (by simpa [coveredW] using hc) h1
     simp only [Shape]
     exact ⟨ufs, .dense, rfl, this⟩
   | .interval _, _, _, _, _, _, h => by simp [newDT, fail] at h
   | .runEndEncoded _ _, _, _, _, _, _, h => by simp [newDT, fail] at h
-theorem newFields_shape : ∀ (fs : Fields) (path : String) (bl : BL), coveredFs fs = true →
+theorem newFields_shapeW : ∀ (fs : Fields) (path : String) (bl : BL), coveredWFs fs = true →
     newFields path fs = .ok bl → ShapeL bl fs
   | .nil, path, bl, _, h => by simp only [newFields] at h; cases h; simp [ShapeL]
   | .cons (.mk fname fdt fn fmd) rest, path, bl, hc, h => by
@@ -229,12 +340,12 @@ theorem newFields_shape : ∀ (fs : Fields) (path : String) (bl : BL), coveredFs
     obtain ⟨r, h2, h⟩ := (bind_ok _ _ _).1 h
     cases h
     simp only [newB] at h1
-    have hc' : covered fdt = true ∧ coveredFs rest = true := by simpa [coveredFs, coveredF] using hc
-    have hb := newDT_shape fdt _ fn fmd b hc'.1 h1
-    have hr := newFields_shape rest path r hc'.2 h2
+    have hc' : coveredW fdt = true ∧ coveredWFs rest = true := by simpa [coveredWFs, coveredWF] using hc
+    have hb := newDT_shapeW fdt _ fn fmd b hc'.1 h1
+    have hr := newFields_shapeW rest path r hc'.2 h2
     simp only [ShapeL, metaOfField]
     exact ⟨trivial, trivial, hb, hr⟩
-theorem newUnionFields_shape : ∀ (ufs : UFields) (path : String) (idx : Nat) (bl : BL), coveredU ufs = true →
+theorem newUnionFields_shapeW : ∀ (ufs : UFields) (path : String) (idx : Nat) (bl : BL), coveredWU ufs = true →
     newUnionFields path ufs idx = .ok bl → ShapeU bl ufs idx
   | .nil, path, idx, bl, _, h => by simp only [newUnionFields] at h; cases h; simp [ShapeU]
   | .cons tid (.mk fname fdt fn fmd) rest, path, idx, bl, hc, h => by
@@ -246,9 +357,9 @@ theorem newUnionFields_shape : ∀ (ufs : UFields) (path : String) (idx : Nat) (
       obtain ⟨r, h2, h⟩ := (bind_ok _ _ _).1 h
       cases h
       simp only [newB] at h1
-      have hc' : covered fdt = true ∧ coveredU rest = true := by simpa [coveredU, coveredF] using hc
-      have hb := newDT_shape fdt _ fn fmd b hc'.1 h1
-      have hr := newUnionFields_shape rest path (idx + 1) r hc'.2 h2
+      have hc' : coveredW fdt = true ∧ coveredWU rest = true := by simpa [coveredWU, coveredWF] using hc
+      have hb := newDT_shapeW fdt _ fn fmd b hc'.1 h1
+      have hr := newUnionFields_shapeW rest path (idx + 1) r hc'.2 h2
       simp only [ShapeU]
       exact ⟨by simpa using htid, hb, hr⟩
 end
@@ -257,16 +368,54 @@ theorem coveredFs_ofList : ∀ (fields : List Field), coveredFs (Fields.ofList f
   | [] => rfl
   | f :: r => by simp [Fields.ofList, coveredFs, coveredFs_ofList r]
 
-theorem newRoot_shape {fields : List Field} {root : B} (hc : fields.all coveredF = true)
+theorem coveredWFs_ofList : ∀ (fields : List Field), coveredWFs (Fields.ofList fields) = fields.all coveredWF
+  | [] => rfl
+  | f :: r => by simp [Fields.ofList, coveredWFs, coveredWFs_ofList r]
+
+theorem newRoot_shapeW {fields : List Field} {root : B} (hc : fields.all coveredWF = true)
     (h : newRoot fields = .ok root) : Shape root (.struct (Fields.ofList fields)) false [] := by
   simp only [newRoot] at h
   obtain ⟨bl, h1, h⟩ := (bind_ok _ _ _).1 h
-  have hsl := newFields_shape _ _ bl (by rw [coveredFs_ofList]; exact hc) h1
+  have hsl := newFields_shapeW _ _ bl (by rw [coveredWFs_ofList]; exact hc) h1
   unfold mkStruct at h
   split at h
   · simp [fail] at h
   · cases h
     simp only [Shape]
     exact ⟨rfl, _, rfl, hsl⟩
+
+/-! ### neither predicate excludes a type by refusing it -/
+
+/-- the data types `build_builder` refuses at their head: RunEndEncoded, Interval, a dictionary whose key type is not an
+integer type (repo fix 7359431) -/
+def refusedHead : DataType → Bool
+  | .runEndEncoded _ _ | .interval _ => true
+  | .dictionary k _ => !isIntDT k
+  | _ => false
+
+theorem newDT_refusedHead {dt : DataType} (hr : refusedHead dt = true) (path : String) (n : Bool) (md : Metadata) (b : B) :
+    newDT path dt n md ≠ .ok b := by
+  intro h
+  cases dt <;> simp [refusedHead] at hr
+  · simp [newDT, fail] at h
+  · rename_i k v
+    simp only [newDT, hr] at h
+    simp [ctx_ok, fail] at h
+  · simp [newDT, fail] at h
+
+/-- `covered` / `coveredW` are TRUE of every type `build_builder` refuses at its head: the theorems that carry them hold
+there because `to_marrow` fails at construction, not because the predicate excludes the type -/
+theorem covered_refusedHead {dt : DataType} (hr : refusedHead dt = true) : covered dt = true ∧ coveredW dt = true := by
+  cases dt <;> simp [refusedHead] at hr <;> simp [covered, coveredW, hr]
+
+/-! the statements with the stronger predicate `covered` (what the completeness theorems and the physical layer carry) -/
+
+theorem newDT_shape (dt : DataType) (path : String) (n : Bool) (md : Metadata) (b : B) (hc : covered dt = true)
+    (h : newDT path dt n md = .ok b) : Shape b dt n md :=
+  newDT_shapeW dt path n md b (coveredW_of_covered dt hc) h
+
+theorem newRoot_shape {fields : List Field} {root : B} (hc : fields.all coveredF = true)
+    (h : newRoot fields = .ok root) : Shape root (.struct (Fields.ofList fields)) false [] :=
+  newRoot_shapeW (all_coveredWF_of_coveredF hc) h
 
 end SaModel.Build
